@@ -265,11 +265,10 @@ def build_item(spec: dict, sections: dict, substs: list, defines: set, log: list
                 ann = sections.get(('loop', k), '')
                 itv = f'__it{k}'
                 pre = sections.get(('before_loop', k), '')
-                headtxt = (f'let mut {itv} = {expr};\n' + (pre.rstrip() + '\n' if pre.strip() else '') + 'loop\n' + (ann.rstrip() + '\n' if ann.strip() else '') +
-                           f'{{ match {itv}.next() {{ Some({pat}) => {{')
                 lb = sections.get(('loop_body', k), '')
-                if lb.strip():
-                    headtxt += '\n' + lb.rstrip() + '\n'
+                # the loop-body prelude runs before `next()` so that it can name the iterator's pre-state
+                headtxt = (f'let mut {itv} = {expr};\n' + (pre.rstrip() + '\n' if pre.strip() else '') + 'loop\n' + (ann.rstrip() + '\n' if ann.strip() else '') +
+                           '{\n' + (lb.rstrip() + '\n' if lb.strip() else '') + f'match {itv}.next() {{ Some({pat}) => {{')
                 edits.append(Edit(toks[lp.kw_tok].start, toks[lp.open_tok].end, headtxt, 'R3'))
                 ct = toks[lp.close_tok]
                 tailtxt = '} None => break, } }'
